@@ -70,6 +70,9 @@ def build(eng, pattern, folders, opts, sym, names=None):
         else:
             e["mtime"] = sym["mtime"][i]
             eng.assume(eng.range_cond(e["mtime"], 63))
+        if opts.get("ctime"):
+            e["ctime"] = eng.sym_int("ctime%d" % i, 63)   # the base also carries creation times
+            eng.assume(eng.range_cond(e["ctime"], 63))
         entries.append(e)
     nf = len(folders)
     packs = sym["pack"][:nf]
